@@ -120,8 +120,24 @@ func checkC26(c *Ctx, r *Report) {
 
 	// R4: SortPeers exclusion
 	r4 := r.Rule("R4", "E-GUARD", "in SortPeers the ranking call assignPriority is reached only where the candidate's PeerID differs from the source's PeerID", 1)
-	if sp := r.MustFunc(r4, "(*tracker/peerhandoutpolicy.PriorityPolicy).SortPeers"); sp != nil {
-		src := sp.Params[1]
+	if sp0 := r.MustFunc(r4, "(*tracker/peerhandoutpolicy.PriorityPolicy).SortPeers"); sp0 != nil {
+		// the ranking loop may live in a helper of the package that SortPeers calls
+		// with its source peer: it is then judged there, against that parameter
+		sp, src := sp0, ssa.Value(sp0.Params[1])
+		if len(callsInNamed(sp0, "(tracker/peerhandoutpolicy.assignmentPolicy).assignPriority")) == 0 {
+			for _, hc := range callsIn(sp0) {
+				sf := hc.Instr.Common().StaticCallee()
+				if sf == nil || sf.Pkg != sp0.Pkg || len(callsInNamed(sf, "(tracker/peerhandoutpolicy.assignmentPolicy).assignPriority")) == 0 {
+					continue
+				}
+				for i, a := range hc.Instr.Common().Args {
+					if a == ssa.Value(sp0.Params[1]) && i < len(sf.Params) {
+						sp, src = sf, sf.Params[i]
+						r.Analysed(sf)
+					}
+				}
+			}
+		}
 		for _, cs := range callsInNamed(sp, "(tracker/peerhandoutpolicy.assignmentPolicy).assignPriority") {
 			isIDCmp := func(cond ssa.Value) (*ssa.BinOp, bool) {
 				b, ok := cond.(*ssa.BinOp)
